@@ -302,3 +302,9 @@ pub proof fn axiom_url_slash_ok(x: Seq<char>)
 
 // when process_static_resources reported an error (code e), the response carries that code
 pub open spec fn error_status_kept(e: int, status: int) -> bool { e != -1 ==> status == e }
+
+// the Range value the static controller hands to the range pipeline
+pub open spec fn effective_range(hs: Seq<Header>) -> Seq<char> {
+    let h = req_header(hs, Header::_RANGE@);
+    if h.is_some() { h.unwrap().value@ } else { s_bytes0() }
+}
